@@ -3,14 +3,14 @@
 # (one load, `verifsa multi`) against a scratch root and prints which ones report a violation, with the first reports.
 export GOFLAGS=-mod=mod GOPROXY=off GOSUMDB=off GOTOOLCHAIN=local; unset GOWORK
 p=$(readlink -f $1); shift
-ids=$(echo ${@:-$(/verif/bin/verifsa list | cut -d' ' -f1)} | tr ' ' ',')
+ids=$(echo ${@:-$(${VERIFSA:-/verif/bin/verifsa} list | cut -d' ' -f1)} | tr ' ' ',')
 d=$(mktemp -d /tmp/verif-trydiff.XXXX); r=$(mktemp -d /tmp/verif-trydiff-root.XXXX)
 trap 'rm -rf $d $r' EXIT
 git -C /repo archive HEAD | tar -x -C $d
 (cd $d && git init -q . && git apply $p) || { echo "$(basename $p): patch does not apply"; exit 2; }
 (cd $d && go build ./...) || { echo "$(basename $p): does not build"; exit 2; }
 cp /verif/known_findings.json $r/
-hit=$(/verif/bin/verifsa multi -ids $ids -repo $d -root $r 2>/dev/null | grep '^MULTI' | grep -v 'rc=0' | cut -d' ' -f2 | tr '\n' ' ')
+hit=$(${VERIFSA:-/verif/bin/verifsa} multi -ids $ids -repo $d -root $r 2>/dev/null | grep '^MULTI' | grep -v 'rc=0' | cut -d' ' -f2 | tr '\n' ' ')
 for id in $hit; do
   jq -r --arg id $id '.coverage.not_discharged[]? | "   [\($id)] \(.pos) \(.verdict): [\(.rule)] \(.key): \(.detail)"' $r/evidence/$id.json 2>/dev/null | grep -v "known_findings" | cut -c1-330 | head -${TRYDIFF_LINES:-3}
 done
